@@ -319,7 +319,10 @@ func importRow(c *Ctx, id int) (importptn.VerifGame, bool) {
 		c.Count("row.wrong-separator")
 		good = false
 	}
-	names := []string{"nelhage", "Guest3179", "TakticianBot", "a \"quoted\" name", "x]y", "", "Ümlaut", "100%", "tab\tname", "new\nline", "{brace}"}
+	names := []string{"nelhage", "Guest3179", "TakticianBot", "a \"quoted\" name", "", "Ümlaut", "100%", "tab\tname", "new\nline", "{brace}", "nelhage", "Guest17", "alphatak_bot", "x y", "IntuitionBot"}
+	if r.Chance(1, 40) {
+		names = []string{"x]y"} // outside what Render can write back (C12: tagSafe)
+	}
 	results := []string{"R-0", "0-R", "F-0", "0-F", "1/2-1/2", "1-0", "0-1", "", "0-0", "bogus", "R-0\""}
 	dates := []int{0, 1, 999, 1000, -1, -1001, 1486326678000, 1486326678123, 951782400000, 1709164800000 + r.Intn(1000000000), 4102444800000, -62135596800000, r.Intn(2000000000) * 1000}
 	timers := []int{0, 0, 60, 600, 1200, 90, -90, 59, 3600, 5, -5, 2147483647, -2147483648, r.Intn(100000)}
